@@ -1335,10 +1335,31 @@ fn history(family: &str, seed: u64, idx: usize, thorough: bool, out: &mut impl W
             c.s.spawn(origin, e, true, &[], None);
             let d = c.drain(40);
             c.s.trace.push(json!({"ev":"drain","quiescent":d.0,"rounds":d.1}));
+            // one history in four: the entity is a parent by the time its components land — a child that already has its own
+            // Visibility / Transform (and their companions) was linked under it first
+            let adopts = idx % 4 == 1;
+            if adopts {
+                let ch = c.fresh();
+                c.s.spawn(origin, ch, true, &[], None);
+                let d = c.drain(40);
+                c.s.trace.push(json!({"ev":"drain","quiescent":d.0,"rounds":d.1}));
+                c.s.write(origin, ch, &CVal::new(Ty::Visibility, 1), &[]);
+                if c.rng.chance(1, 2) {
+                    c.s.write(origin, ch, &CVal::new(Ty::Transform, 2), &[]);
+                }
+                let d = c.drain(40);
+                c.s.trace.push(json!({"ev":"drain","quiescent":d.0,"rounds":d.1}));
+                c.s.set_parent(origin, ch, e);
+                let d = c.drain(40);
+                c.s.trace.push(json!({"ev":"drain","quiescent":d.0,"rounds":d.1,"adopted":ch}));
+            }
             // subset and arrival order of the five kinds
             let mut kinds: Vec<Ty> = KINDS.iter().cloned().filter(|_| c.rng.chance(1, 2)).collect();
             if kinds.is_empty() {
                 kinds.push(*c.rng.pick(&KINDS));
+            }
+            if adopts && !kinds.contains(&Ty::Visibility) {
+                kinds.push(Ty::Visibility);
             }
             for i in (1..kinds.len()).rev() {
                 let j = c.rng.below(i + 1);
@@ -1494,6 +1515,21 @@ fn history(family: &str, seed: u64, idx: usize, thorough: bool, out: &mut impl W
                 c.s.connect(id);
                 let ok = c.wait_connected(id, if far { 300 } else { 60 });
                 c.s.trace.push(json!({"ev":"late_join","peer":id,"ok":ok}));
+                // the skin is replaced right behind the join: the update crosses whatever the joiner does with its snapshot
+                if ok && !joints.is_empty() && c.rng.chance(1, 2) {
+                    let writer = if c.rng.chance(1, 2) { 0 } else { origin };
+                    let mut list: Vec<u32> = prev_list.clone().unwrap_or_default();
+                    if list.is_empty() {
+                        list = joints.clone();
+                    }
+                    list.reverse();
+                    let off = c.rng.below(3);
+                    c.lockstep(off);
+                    c.s.trace.push(json!({"ev":"phase","writer":writer,"h":m,"ty":"Skinned","joints":list,"behind_join":true}));
+                    c.s.write(writer, m, &CVal::new(Ty::Skinned, 7_700), &list);
+                    let d = c.drain(60);
+                    c.s.trace.push(json!({"ev":"drain","quiescent":d.0,"rounds":d.1}));
+                }
             }
         }
         "promo" => {
@@ -1751,6 +1787,24 @@ fn history(family: &str, seed: u64, idx: usize, thorough: bool, out: &mut impl W
                         }
                     }
                 }
+            }
+            // one history in three: the host's scene has a synchronized entity under a plain, unsynchronized node (a scene root),
+            // and after it — same kind of entity, same archetype — a synchronized child of a synchronized parent
+            if idx % 3 == 1 {
+                c.s.trace.push(json!({"ev":"epoch","writer":0,"scene_root":true}));
+                let n = c.fresh();
+                c.s.spawn(0, n, false, &[], None);
+                let x = c.fresh();
+                c.s.spawn(0, x, true, &[], Some(n));
+                c.live.push(x);
+                let a = c.fresh();
+                c.s.spawn(0, a, true, &[], None);
+                c.live.push(a);
+                let b = c.fresh();
+                c.s.spawn(0, b, true, &[], Some(a));
+                c.live.push(b);
+                let d = c.drain(80);
+                c.s.trace.push(json!({"ev":"drain","quiescent":d.0,"rounds":d.1}));
             }
             // a crowded world (one history in eighteen): the snapshot is hundreds of messages and reaches the joiner in bursts
             let crowded = idx % 18 == 4;
